@@ -126,7 +126,7 @@ K_LIB = 4
 
 
 def shards(tier, seed):
-    mult = 1 if tier == "quick" else 45
+    mult = 1 if tier == "quick" else 90
     out, idx = [], {}
     for k in KINDS_QUICK:
         i = idx.get(k, 0)
